@@ -20,6 +20,8 @@ pub fn dispatch(op: &str, f: &Fields) -> String {
         "structcmp" => structcmp(f),
         "crash" => crash(f),
         "ctor" => ctor(f),
+        "blocksw" => crate::meta::blocksw(f),
+        "blocksr" => crate::meta::blocksr(f),
         _ => format!("harness-error unknown-op {}", op),
     }
 }
